@@ -22,7 +22,7 @@ from lib.common import cps
 PROP = 'C13'
 LEVEL = 'proof'
 PROPS_MODULES = ['RTV.Props.C13']
-GEN = ['chartables', 'regexes', 'tlds', 'preprocess', 'emojitable', 'urlgrammar']
+GEN = ['chartables', 'regexes', 'tlds', 'preprocess', 'emojitable', 'urlgrammar', 'pytables']
 REQUIRED_THEOREMS = ['octet_lang', 'ipv4_lang', 'ipv4_sound', 'prefix_ipv4_unsound_unicode_digits',
                      'ipv4_rejects_unicode_digit_witness', 'ipv4_complete_unique', 'ipv4_reported_span',
                      'drop_zeros_same_address', 'drop_zeros_canonical', 'drop_zeros_groupwise', 'ip_extract_sound',
@@ -31,7 +31,7 @@ REQUIRED_THEOREMS = ['octet_lang', 'ipv4_lang', 'ipv4_sound', 'prefix_ipv4_unsou
                      'ipv6_sound', 'ipv6_complete', 'drop_zeros_group_value', 'hashtag_lang',
                      'hashtag_reported_span', 'mention_lang', 'mention_unique', 'mention_reported_span',
                      'real_tagchars_are_word', 'email_lang', 'url_reported_valid', 'url_grammar_recognised',
-                     'url_family_size']
+                     'url_family_size', 'phone_post_span', 'phone_kept_prefix', 'phone_extract_spec', 'match_inside_text']
 RULE = ('regex correspondence: per translated pattern, strings sampled from the pattern, mutated, embedded in contexts '
         'built from the pattern\'s own class boundaries; unit: drop_leading_zeros / extractors / score_guid on IP- and '
         'GUID-shaped strings with ellipsis boundary contexts; pipeline: boundary octets {0,9,10,99,100,199,200,249,250,255}^4 '
@@ -41,7 +41,7 @@ RULE = ('regex correspondence: per translated pattern, strings sampled from the 
 ASSUMPTIONS = ['`regex` module tables for \\d \\w \\s exported by brute force from the running module (RTV/Gen/Regexes.lean)',
                '`finditer` is modelled as leftmost start / first end in backtracking priority order (validated by the regex correspondence)',
                'QueryProcessor.preprocess (lower-casing, full-width folding) is not modelled; pipeline carriers avoid code points whose lower-casing changes length',
-               'URL: extractor modelled (captures, TLD check through the C16 matcher model, ambiguous time term); soundness theorem universal, completeness for the explicit grammar by kernel evaluation of a covering family (130 of 1080 strings; all 1080 through the implementation); e-mail / hashtag / mention: language theorems for the regexes, extractor glue by correspondence']
+               'URL: extractor modelled (captures, TLD check through the C16 matcher model, ambiguous time term); soundness theorem universal, completeness for the explicit grammar by kernel evaluation of a covering family (130 of 1080 strings; all 1080 through the implementation); phone: extractor modelled end to end (ten patterns, sweep, post-processing), span / filter theorems for any regex outcome, no completeness theorem (score_phone_number and the model-level score are not modelled); e-mail / hashtag / mention: language theorems for the regexes, extractor glue by correspondence']
 
 BOUNDARY = [0, 9, 10, 99, 100, 199, 200, 249, 250, 255]
 CARRIERS = ['{}', 'ip {} here', '({})', '{}, next', 'at {}.', 'x={};', '"{}"', ' {} ', 'see\t{}\nok']
@@ -582,6 +582,50 @@ def unit_url(ctx, impl, urls):
                        failing_input={'op': op, 'query': q, 'implementation': a, 'model': b})
 
 
+PHONE_CORES = ['(206) 555-0123', '206-555-0123', '206 555 0123', '+1 206 555 0123', '1-206-555-0123', '555-0123', '2065550123',
+               '+44 20 7946 0958', '020 7946 0958', '030 12345678', '+86 138 0013 8000', '13800138000', '06 1234 5678',
+               '123-45-6789', '1234 5678 9012 3456', '+1234 5678 9012 3456', '123 4567 8901 2345', '1234 567 8901 234',
+               '00 10 00 31 46 d9 e9 11', '555.0123', '1-800-flowers', '0800 123 456', '+55 11 91234-5678', '(11) 91234-5678']
+PHONE_CTX = ['{}', 'call {} now', 'tel:{}', 'tel: {}', 'x:{}', '1:{}', 'fax,{}', '50%{}', '-{}', '.{}', '/{}', '+{}', '#{}', '*{}',
+             '00-{}', '011-{}', '9 00-{}', 'a-{}', 'A-{}', '7-{}', ' -{}', '{}/', '{}+', '{}#', '{}*', '{}:', '{}%', '{},', '{}.',
+             'account number: {}', 'card # is {}', 'my account {}', 'card{}', '({})', 'id 00 10 00 31 46 d9 e9 11 {}',
+             '{} and {}', 'a{}', '{}a', '中{}中']
+
+
+def unit_phone(ctx, impl, extra):
+    """BasePhoneNumberExtractor.extract (English configuration, pre-processed query) against RTV.Seq.phoneExtract"""
+    from recognizers_sequence.sequence.extractors import BasePhoneNumberExtractor
+    from recognizers_sequence.sequence.english.extractors import EnglishPhoneNumberExtractorConfiguration
+    ex = BasePhoneNumberExtractor(EnglishPhoneNumberExtractorConfiguration())
+    r = ctx.rng('unit-phone')
+    qs = []
+    for core in PHONE_CORES + extra:
+        for c in PHONE_CTX:
+            qs.append(c.replace('{}', core))
+    for _ in range(1500 if ctx.thorough else 300):
+        core = r.choice(PHONE_CORES + extra)
+        p = r.randrange(len(core))
+        core = core[:p] + r.choice(['', ' ', '-', '.', '5', '55']) + core[p + r.randint(0, 1):]
+        qs.append(r.choice(PHONE_CTX).replace('{}', core))
+    lines, want = [], []
+    for q in qs:
+        pq = impl.preprocess(q)
+        lines.append('phone.extract\t' + cps(pq))
+        try:
+            want.append(fmt_ers(ex.extract(pq)))
+        except Exception as e:
+            want.append('err:' + type(e).__name__)
+    model = common.driver(lines)
+    ctx.count('unit-phone-extract', len(lines))
+    for l, a, b in zip(lines, want, model):
+        q = common.uncps(l.split('\t')[-1])
+        if a and not a.startswith('err'):
+            ctx.nontriv(('phx', q))
+        if a != b:
+            ctx.report('correspondence', 'phone-extract', 'BasePhoneNumberExtractor.extract(%r): implementation %s, model %s' % (q, a, b),
+                       failing_input={'op': 'phone.extract', 'query': q, 'implementation': a, 'model': b})
+
+
 def correspond(ctx):
     impl = Impl()
     # regex correspondence (translator + matcher)
@@ -593,6 +637,7 @@ def correspond(ctx):
     guid_texts, guid_near = pipeline_guid(ctx, impl)
     url_cases = pipeline_others(ctx, impl)
     unit_url(ctx, impl, url_cases)
+    unit_phone(ctx, impl, [])
     # unit level
     r = ctx.rng('unit')
     texts = ['', '0', '00', '000.000.000.000', '010.001.100.000', '0:0::00', '::', ':', '.', '1.', '.1', '0.', 'a.b',
